@@ -9,7 +9,7 @@
                findSetupProduct finds, with reason None) and enters the product it chose; every forward
                call that really sets a product up enters it again (2058).  The call that finds its product
                already set up returns before that line.  A failing dependency restores the environment
-               (popStack env) but NOT this dictionary.
+               and the aliases (popStack env) but NOT this dictionary.
      vro       Eups.preferredTags.  Action.processArgs (table.py 885-938) builds, for every dependency
                line, requestedVRO = the current list, with keep prepended when keep is in it (so under
                --keep the list grows by one keep per level); execute_setupRequired installs it for the
@@ -131,17 +131,16 @@ Fixpoint run_actions_full (rec : full_fn) (fwd : bool) (depth : nat) (just : boo
       match a with
       | ASetup optional nm jst =>
           if cut_off cfg just (S depth) then run_actions_full rec fwd depth just vro acts' infos' st al else
-          let saved := s_env st in                              (* pushStack env; pushStack vro *)
+          (* pushStack env, pushStack vro; after a failure popStack env puts the environment and the aliases
+             back: the state is the one before the dependency - but the dictionary stays *)
           match rec st al (child_vro vro) nm li fwd (S depth) jst with
           | FDone true st' al' tr => with_trace tr (run_actions_full rec fwd depth just vro acts' infos' st' al')
-          | FDone false st' al' tr =>
-              let st'' := with_env st' saved in                 (* popStack env: the dictionary stays *)
-              if fwd && negb optional then FRaise st'' al' tr
-              else with_trace tr (run_actions_full rec fwd depth just vro acts' infos' st'' al')
-          | FRaise st' al' tr =>
-              let st'' := with_env st' saved in
-              if fwd && negb optional then FRaise st'' al' tr
-              else with_trace tr (run_actions_full rec fwd depth just vro acts' infos' st'' al')
+          | FDone false _ al' tr =>
+              if fwd && negb optional then FRaise st al' tr
+              else with_trace tr (run_actions_full rec fwd depth just vro acts' infos' st al')
+          | FRaise _ al' tr =>
+              if fwd && negb optional then FRaise st al' tr
+              else with_trace tr (run_actions_full rec fwd depth just vro acts' infos' st al')
           | other => other
           end
       | _ =>
